@@ -1,8 +1,8 @@
 (* C10 — Serialisation never changes a name's meaning; missing prefixes can be repaired.
    Pinned statements only.  Model: Model/Fullname.v, Model/XmlSer.v, Model/NsTools.v. *)
 From Coq Require Import List NArith.
-From XotV Require Import Model.Base Model.Zipper Model.Access Model.Store Model.Manip Model.Interning Model.Fullname Model.Scope
-                         Model.XmlSer Model.NsTools Model.Builder Proofs.FullnameProofs Proofs.NsProofs Proofs.DedupProofs Proofs.RepairProofs.
+From XotV Require Import Model.Base Model.Zipper Model.Access Model.Store Model.Manip Model.Interning Model.Fullname Model.Scope Model.Entity
+                         Model.XmlSer Model.NsTools Model.Builder Proofs.FullnameProofs Proofs.NsProofs Proofs.DedupProofs Proofs.RepairProofs Proofs.XmlSerProofs.
 Import ListNotations.
 Open Scope N_scope.
 
@@ -116,3 +116,17 @@ Example C10_repair_example :
   mf nm (base_stack nm) [] (FCons 10 (VElement 7) k FNil) = [7; 8; 9]
   /\ mf nm (base_stack nm) [] (FCons 10 (VElement 7) (ins_all [30; 31; 32] L k) FNil) = [].
 Proof. vm_compute. split; reflexivity. Qed.
+
+(* what a declaration is written as: xmlns="uri" or xmlns:p="uri" with the URI escaped as an attribute value, or nothing; and a
+   prefix bound to "no namespace" -- which XML cannot spell: xmlns:p="" is not well-formed and the parser refuses it -- is never
+   written (the repair e7b2148; before it the written text did not parse back) *)
+Theorem C10_declaration_is_written_in_a_form_the_parser_accepts :
+  forall nm prm st z p ns st' t,
+    render nm prm st z (OPrefix p ns) = inr (st', t) ->
+    st' = st
+    /\ (token_text t = []
+        \/ (p = n_empty_prefix nm /\ token_text t = [32] ++ s_xmlns ++ [61; 34] ++ serialize_attribute (n_ns_str nm ns) ++ [34])
+        \/ (p <> n_empty_prefix nm /\ ns <> n_no_ns nm
+            /\ token_text t = [32] ++ s_xmlns ++ [58] ++ n_prefix_str nm p ++ [61; 34] ++ serialize_attribute (n_ns_str nm ns) ++ [34])).
+Proof. exact prefix_token_spec. Qed.
+Print Assumptions C10_declaration_is_written_in_a_form_the_parser_accepts.
